@@ -1,6 +1,7 @@
 import WS.Model.Writer
 import WS.Model.Source
 import WS.Spec.Utf8
+import WS.Gen.Tables
 /-
   WS.Model.Reader — executable model of the read side of conn.go:
 
@@ -52,12 +53,12 @@ structure Conn where
   r : R
   deriving Repr
 
-def defaultReadBufferSize : Nat := 4096
+def defaultReadBufferSize : Nat := Gen.defaultReadBufferSize.toNat
 
 /-- newConn's read-side arithmetic (br == nil case) -/
 def readBufSize (readBufferSize : Int) : Nat :=
   if readBufferSize ≤ 0 then defaultReadBufferSize   -- 0 ↦ default (negative sizes make bufio pick its own default; not used)
-  else if readBufferSize < 125 then 125
+  else if readBufferSize < Gen.maxControlFramePayloadSize then maxControlPayload
   else readBufferSize.toNat
 
 def two63 : Int := 9223372036854775808
@@ -70,16 +71,16 @@ def wrap64 (x : Int) : Int := (x + two63) % two64 - two63
 def writeWaitDeadline : Int := 1000000
 
 def closePayload (code : Nat) (text : Bytes) : Bytes :=
-  if code = 1005 then [] else beBytes 2 code ++ text
+  if (code : Int) = Gen.CloseNoStatusReceived then [] else beBytes 2 code ++ text
 
-def validCloseCodes : List Nat := [1000, 1001, 1002, 1003, 1007, 1008, 1009, 1010, 1011, 1012, 1013]
-
+/-- isValidReceivedCloseCode: the generated map literal and range of conn.go -/
 def isValidReceivedCloseCode (code : Nat) : Bool :=
-  validCloseCodes.contains code || (decide (3000 ≤ code) && decide (code ≤ 4999))
+  Gen.validReceivedCloseCodes.contains ((code : Int), true) ||
+    (decide (Gen.closeCodeRangeLo ≤ (code : Int)) && decide ((code : Int) ≤ Gen.closeCodeRangeHi))
 
 /-- handleProtocolError: best-effort 1002 close, then the error -/
 def handleProtocolError (c : Conn) (msg : String) : RErr × Conn :=
-  let data := (closePayload 1002 (strBytes msg)).take maxControlPayload
+  let data := (closePayload Gen.CloseProtocolError.toNat (strBytes msg)).take maxControlPayload
   let (_, w) := writeControl c.w 8 data writeWaitDeadline
   (.protocol msg, { c with w })
 
@@ -105,7 +106,7 @@ def headerErrors (isServer nego final : Bool) (h : Hdr) : List String :=
   (if h.rsv2 then ["RSV2 set"] else []) ++
   (if h.rsv3 then ["RSV3 set"] else []) ++
   (if h.opcode == 8 || h.opcode == 9 || h.opcode == 10 then
-     (if h.len7 > 125 then ["len > 125 for control"] else []) ++
+     (if h.len7 > maxControlPayload then ["len > 125 for control"] else []) ++
      (if !h.fin then ["FIN not set on control"] else [])
    else if h.opcode == 1 || h.opcode == 2 then
      (if !final then ["data before FIN"] else [])
@@ -189,7 +190,7 @@ def advanceFrame (c : Conn) : Except RErr Nat × Conn :=
       let c := { c with r := { c.r with length := len } }
       if len < 0 then (.error .readLimit, c)
       else if c.r.limit > 0 && len > c.r.limit then
-        let (_, w) := writeControl c.w 8 (closePayload 1009 []) writeWaitDeadline
+        let (_, w) := writeControl c.w 8 (closePayload Gen.CloseMessageTooBig.toNat []) writeWaitDeadline
         (.error .readLimit, { c with w })
       else (.ok h.opcode, c)
     else
@@ -220,7 +221,7 @@ def advanceFrame (c : Conn) : Except RErr Nat × Conn :=
         (.ok 9, c)
     else
       -- close
-      let code := if payload.length ≥ 2 then beVal (payload.take 2) else 1005
+      let code := if payload.length ≥ 2 then beVal (payload.take 2) else Gen.CloseNoStatusReceived.toNat
       let text := if payload.length ≥ 2 then payload.drop 2 else []
       if payload.length ≥ 2 && !isValidReceivedCloseCode code then
         let (e, c) := handleProtocolError c ("bad close code " ++ toString code)
